@@ -454,6 +454,9 @@ pub fn step_family(gate: &str) -> String {
 // the runner
 // ---------------------------------------------------------------------------------------------
 
+/// set by the PRSS monitor (C06) to keep the draw log on during hybrid runs
+pub static PRSS_LOG: std::sync::atomic::AtomicBool = std::sync::atomic::AtomicBool::new(false);
+
 type Slots = Arc<Mutex<Vec<Option<HelperOut>>>>;
 
 fn shares_to_pairs<HV: BooleanArray + U128Conversions>(v: &[AdditiveShare<HV>]) -> Vec<(u128, u128)> {
@@ -529,7 +532,8 @@ async fn world_body<const S: usize>(case: HybridCase, interceptor: Option<DynStr
 fn run_s<const S: usize>(case: &HybridCase, interceptor: Option<DynStreamInterceptor>) -> HybridRun {
     let slots: Slots = Arc::new(Mutex::new(vec![None; S * 3]));
     let _ = verif_obs::drain();
-    verif_obs::enable(true, false);
+    let prss_on = PRSS_LOG.load(std::sync::atomic::Ordering::SeqCst);
+    verif_obs::enable(true, prss_on);
     let body = world_body::<S>(case.clone(), interceptor, Arc::clone(&slots));
     let (quiescent, wall_timeout) = match case.exec {
         Exec::Paused => match vlib::run_paused(Duration::from_secs(60), body) {
@@ -542,7 +546,7 @@ fn run_s<const S: usize>(case: &HybridCase, interceptor: Option<DynStreamInterce
         },
     };
     let events = verif_obs::drain();
-    verif_obs::enable(false, false);
+    verif_obs::enable(false, prss_on);
     let got = slots.lock().unwrap().clone();
     let mut outs = Vec::with_capacity(S);
     for s in 0..S {
